@@ -32,13 +32,14 @@ def main(run):
 
 
 def replay(run, path):
-    j = json.load(open(path))
-    rp = j.get("replay") or {}
+    """also the replay of the T05 stage inside C07 (run.prop is the host then): common.replay_begin"""
+    j, rp = replay_load(path)
+    if "theorem_file" in rp and "case" not in rp:
+        return replay_theorem(run, path, j, rp)
     print(j.get("what"))
     c = rp.get("case")
-    if not c:
-        print(json.dumps(j, indent=1, ensure_ascii=False)[:6000])
-        return 0
+    if not (isinstance(c, dict) and all(k in c for k in ('file_text', 'journal', 'kind', 'lt'))):
+        return replay_print(j)
     print("price file:\n%s\njournal:\n%s\nlookup %s, report commodity %s, before %s, scale %s, report %s, listed accounts %s"
           % (c["file_text"], c["journal"], c["lt"], c["rc"], c.get("before"), rp.get("scale"), c["kind"], rp.get("listed_accounts")))
     print("first differing character: %s\nimplementation: %r\nmodel:          %r"
@@ -47,10 +48,8 @@ def replay(run, path):
     st = T.new_stats()
     T.check_cases(run, [dict(c)], st)
     for what, rep, found in run.violations:
-        print("REPRODUCED: %s%s" % (what, "" if found else " (no failing input: correspondence only)"))
-        print("implementation text now:\n" + rep["implementation_text"])
-        print("model text now:\n" + (rep["model_text"] or ""))
-    if not run.violations:
-        print("not reproduced: compared=%d different=%d stages=%s outside_exact_domain=%d"
-              % (st["compared"], st["different"], st["stages"], st["outside_exact_domain"]))
-    return 1 if run.violations else 0
+        print("implementation text now:\n%s" % rep.get("implementation_text"))
+        print("model text now:\n%s" % (rep.get("model_text") or ""))
+    return replay_verdict(run, path, j, "T05 stage: the %s text under conversion is the model chain's text and passes the end-to-end oracle now "
+                                        "(compared=%d different=%d stages=%s outside_exact_domain=%d)"
+                          % (c["kind"], st["compared"], st["different"], st["stages"], st["outside_exact_domain"]))
